@@ -87,8 +87,13 @@ assert run(b'\x80\x00', ('read_int', (16,)))[0][0] is not True
 assert type(run(b'\x80\x00', ('read_int', (16,)))[0][0]) is int
 assert run(b'\xc0', ('read_int', (2,)), ('read_int', (3,))) == [(-1, 2), (0, 5)]
 assert run(b'\xff\x80', ('read_int', (9,))) == [(-255, 9)]
-assert run(S, ('read_int', (1,))) == [(ZERO, 1)]  # the sign bit is gone, the empty magnitude fails
-assert run(S, ('read_int', (0,))) == [((ValueError, "Can't parse 'name[:]length' token 'uint:-1'."), 1)]
+assert run(S, ('read_int', (1,))) == [(0, 1)]  # a field of one bit: the sign bit is gone, the magnitude is empty
+assert type(run(S, ('read_int', (1,)))[0][0]) is int
+assert run(b'\x00', ('read_int', (1,))) == [(0, 1)]
+assert run(S, ('read_int', (0,))) == [(0, 1)]
+assert run(S, ('read_int', (-3,))) == [(0, 1)]
+out = run(S, ('read_int', (None,)))
+assert out[0][0][0] is TypeError and out[0][1] == 1
 # magnitude runs out: sign bit stays consumed, position is after the sign bit
 assert run(b'\x80\x05', ('read_int', (17,))) == [(bre(16, 15), 1)]
 assert run(b'', ('read_int', (8,))) == [(bre(1, 0), 0)]
